@@ -161,28 +161,45 @@ def check_module(n0, n1, n2, m0, reopen, topsel, boost, hollow):
     return True
 
 
-def c09_module(n0: int, n1: int, m0: int, topsel: int, reopen: int) -> bool:
-    """
-    Whole modules (every entity kind in nested / sibling / re-opened namespaces, namespaced variables with and
-    without initialisers, enums, operators, templates + typedefs) under every top-namespace choice.
-    pre: 0 <= n0 < 3 and 0 <= n1 < 3 and 0 <= m0 < 3 and 0 <= topsel < 7 and 0 <= reopen <= 1
-    post: _
-    """
-    n0, n1, m0, topsel, reopen = pick(n0, 0, 3), pick(n1, 0, 3), pick(m0, 0, 3), pick(topsel, 0, 7), pick(reopen, 0, 2)
+def _module(n0, n1, m0, topsel, reopen):
+    n1, m0, topsel = pick(n1, 0, 3), pick(m0, 0, 3), pick(topsel, 0, 7)
+    reopen = pick(reopen, 0, 2) if THOROUGH else (n0 + n1 + m0 + topsel) % 2
     with concrete():
         ok = check_module(n0, n1, (n0 + n1) % 3, m0, reopen, topsel, (n0 + topsel) % 2, 0 if reopen else (n1 + topsel) % 2)
     reached({"n0": n0, "n1": n1, "m0": m0, "topsel": topsel, "reopen": reopen} if not ok else None)
     return ok
 
 
-def c09_callables(role: int, n: int, k: int, t0: int, r: int, flavour: int) -> bool:
+def c09_module_a(n1: int, m0: int, topsel: int, reopen: int) -> bool:
     """
-    The callable shapes of C04 (all roles, argument types incl. nested template arguments, defaults containing
-    brackets / quotes / braces, class and member templates): obligations (i)-(iv) on each output.
-    pre: 0 <= role < 5 and 0 <= n <= 3 and 0 <= k <= n and 0 <= t0 < c04.NPOOL and 0 <= r < c04.NRET and 0 <= flavour <= 2
+    Whole modules (every entity kind in nested / sibling / re-opened namespaces, namespaced variables with and
+    without initialisers, enums, operators, templates + typedefs) under every top-namespace choice; outer namespace `a`.
+    pre: 0 <= n1 < 3 and 0 <= m0 < 3 and 0 <= topsel < 7 and 0 <= reopen <= 1
     post: _
     """
-    role, n, k, t0, flavour = pick(role, 0, 5), pick(n, 0, 4), pick(k, 0, 4), pick(t0, 0, c04.NPOOL), pick(flavour, 0, 3)
+    return _module(0, n1, m0, topsel, reopen)
+
+
+def c09_module_b(n1: int, m0: int, topsel: int, reopen: int) -> bool:
+    """
+    As c09_module_a with outer namespace `b`.
+    pre: 0 <= n1 < 3 and 0 <= m0 < 3 and 0 <= topsel < 7 and 0 <= reopen <= 1
+    post: _
+    """
+    return _module(1, n1, m0, topsel, reopen)
+
+
+def c09_module_ab(n1: int, m0: int, topsel: int, reopen: int) -> bool:
+    """
+    As c09_module_a with outer namespace `ab`.
+    pre: 0 <= n1 < 3 and 0 <= m0 < 3 and 0 <= topsel < 7 and 0 <= reopen <= 1
+    post: _
+    """
+    return _module(2, n1, m0, topsel, reopen)
+
+
+def _callables(role, n, k, t0, r, flavour):
+    n, k, t0, flavour = pick(n, 0, 4), pick(k, 0, 4), pick(t0, 0, c04.NPOOL), pick(flavour, 0, 3)
     r = (t0 + n + role + (pick(r, 0, 2) if THOROUGH else 0) * 5) % c04.NRET
     with concrete():
         if role == 0 and flavour == 2:
@@ -201,6 +218,44 @@ def c09_callables(role: int, n: int, k: int, t0: int, r: int, flavour: int) -> b
         ok = not problems or _fail(text=text, problems=problems[:6], body=body)
     reached({"role": role, "n": n, "k": k, "t0": t0, "flavour": flavour} if not ok else None)
     return ok
+
+
+def c09_callables_ctor(n: int, k: int, t0: int, r: int, flavour: int) -> bool:
+    """
+    The callable shapes of C04 (argument types incl. nested template arguments and pointer-qualified templated
+    types, defaults containing brackets / quotes / braces, class and member templates): obligations (i)-(iv) and
+    "entities used as written" on each output. Constructors.
+    pre: 0 <= n <= 3 and 0 <= k <= n and 0 <= t0 < c04.NPOOL and 0 <= r < 2 and 0 <= flavour <= 1
+    post: _
+    """
+    return _callables(0, n, k, t0, r, flavour)
+
+
+def c09_callables_method(n: int, k: int, t0: int, r: int, flavour: int) -> bool:
+    """
+    As c09_callables_ctor for const methods.
+    pre: 0 <= n <= 3 and 0 <= k <= n and 0 <= t0 < c04.NPOOL and 0 <= r < 2 and 0 <= flavour <= 2
+    post: _
+    """
+    return _callables(1, n, k, t0, r, flavour)
+
+
+def c09_callables_static(n: int, k: int, t0: int, r: int, flavour: int) -> bool:
+    """
+    As c09_callables_ctor for static methods.
+    pre: 0 <= n <= 3 and 0 <= k <= n and 0 <= t0 < c04.NPOOL and 0 <= r < 2 and 0 <= flavour <= 2
+    post: _
+    """
+    return _callables(3, n, k, t0, r, flavour)
+
+
+def c09_callables_function(n: int, k: int, t0: int, r: int, flavour: int) -> bool:
+    """
+    As c09_callables_ctor for free functions.
+    pre: 0 <= n <= 3 and 0 <= k <= n and 0 <= t0 < c04.NPOOL and 0 <= r < 2 and 0 <= flavour <= 2
+    post: _
+    """
+    return _callables(4, n, k, t0, r, flavour)
 
 
 VAR_DEFAULTS = [None, "-9.81", "3", '"a::b, c"', "{1, 2}", "ns::Other(1, 2)", "std::vector<int>()", "(1 + 2)", "'x'", "ns::kOther"]
@@ -338,10 +393,17 @@ def conds(tier):
     M = "harness.c09"
     sb = "shape-bounded"
     return [
-        xh.Cond(M, "c09_module", t(600, 3000), kind=sb, path_timeout=90, examples=["n0=0, n1=1, m0=2, topsel=1, reopen=1", "n0=2, n1=2, m0=0, topsel=6, reopen=0"],
-                bounds="27 namespace-name combinations x 7 top-namespace choices x re-opened namespace"),
-        xh.Cond(M, "c09_callables", t(600, 3000), kind=sb, path_timeout=90, examples=["role=1, n=2, k=1, t0=7, r=5, flavour=1", "role=4, n=3, k=3, t0=2, r=3, flavour=2"],
-                bounds="5 roles x 0-3 args x defaults x %d arg types x 3 template flavours%s" % (c04.NPOOL, " x all return shapes" if not q else "")),
+        xh.Cond(M, "c09_module_a", t(420, 3000), kind=sb, path_timeout=90, examples=["n1=1, m0=2, topsel=1, reopen=1"], bounds="outer namespace a: 9 name combinations x 7 top-namespace choices%s" % (" x re-opened" if not q else "; re-open derived")),
+        xh.Cond(M, "c09_module_b", t(420, 3000), kind=sb, path_timeout=90, examples=["n1=0, m0=0, topsel=4, reopen=0"], bounds="outer namespace b: as c09_module_a"),
+        xh.Cond(M, "c09_module_ab", t(420, 3000), kind=sb, path_timeout=90, examples=["n1=2, m0=0, topsel=6, reopen=0"], bounds="outer namespace ab: as c09_module_a"),
+        xh.Cond(M, "c09_callables_ctor", t(420, 3000), kind=sb, path_timeout=90, examples=["n=2, k=1, t0=7, r=0, flavour=1"],
+                bounds="ctor: 0-3 args x defaults x %d first-argument types x template flavours%s" % (c04.NPOOL, " x 2 return-shape offsets" if not q else "")),
+        xh.Cond(M, "c09_callables_method", t(420, 3000), kind=sb, path_timeout=90, examples=["n=2, k=1, t0=7, r=0, flavour=1"],
+                bounds="method: 0-3 args x defaults x %d first-argument types x template flavours%s" % (c04.NPOOL, " x 2 return-shape offsets" if not q else "")),
+        xh.Cond(M, "c09_callables_static", t(420, 3000), kind=sb, path_timeout=90, examples=["n=3, k=3, t0=15, r=0, flavour=2"],
+                bounds="static: 0-3 args x defaults x %d first-argument types x template flavours%s" % (c04.NPOOL, " x 2 return-shape offsets" if not q else "")),
+        xh.Cond(M, "c09_callables_function", t(420, 3000), kind=sb, path_timeout=90, examples=["n=3, k=3, t0=2, r=0, flavour=2"],
+                bounds="function: 0-3 args x defaults x %d first-argument types x template flavours%s" % (c04.NPOOL, " x 2 return-shape offsets" if not q else "")),
         xh.Cond(M, "c09_this_scoped", t(200, 600), kind=sb, examples=["ninst=2, member=0, nsdepth=1", "ninst=3, member=1, nsdepth=0", "ninst=2, member=3, nsdepth=2"],
                 bounds="1-3 instantiations x 4 member kinds using This / This::Mode / T::Value x namespace depth 0-2"),
         xh.Cond(M, "c09_exports", t(200, 600), kind=sb, examples=["mask=15, nsdepth=1", "mask=2, nsdepth=2", "mask=9, nsdepth=0"],
